@@ -99,6 +99,10 @@ fn cases(thorough: bool) -> Vec<Case> {
         v.push(case("other-consumers", "Qs8d2h", &[via, "first:257"], false, 0, 1176 * 257));
         v.push(case("other-consumers", "Qs8d2h", &["scope:0,1,10,20", via, "text:AKs", "text:AKs"], false, 0, 1176 * 16));
     }
+    // two wide ranges at once (a table indexed by both, built on the stack, would not fit 2 MiB in a dev build)
+    v.push(case("two-wide-ranges", "Qs8d2h", &["scope:0,1,0,3", "first:200", "first:150"], false, 0, 2 * 200 * 150));
+    v.push(case("two-wide-ranges", "Qs8d2h", &["scope:0,1,0,2", "first:1326", "first:1326"], false, 0, 1326 * 1326));
+    v.push(case("two-wide-ranges", "Qs8d2h", &["scope:47,48,48,49", "first:128", "first:128", "first:5"], false, 0, 128 * 128 * 5));
     // no players
     v.push(case("no-players", "Qs8d2h", &[], false, 0, 1176));
     // realistic inputs
